@@ -485,7 +485,8 @@ def _run_config(chk, cfg, primary):
         if sname == "Unit":
             check_unit_like(chk, sim, imp, tr, fn, False)
             n_unit += 1
-        elif sname == "Quantity" and ty_str(rhs) == "Quantity":
+        elif sname == "Quantity" and (ty_str(rhs) == "Quantity" or (rhs.get("k") == "ref" and ty_str(rhs["ty"]) == "Quantity")):
+            # by-value and by-reference right operands alike: `q += &r` must check units exactly like `q += r`
             check_unit_like(chk, sim, imp, tr, fn, True)
             n_q += 1
         elif "Quantity" in (sname, ty_str(rhs)) or (is_adt(fn["sig_output"], "Quantity")):
